@@ -1,4 +1,5 @@
 import ast
+import inspect
 import re
 from string import Template
 
@@ -410,7 +411,7 @@ def _create_parsing_expression(tree):
 
     if isinstance(tree, parser.Postfix) and isinstance(tree.operator, parser.ArgList):
         left, args = tree.left, tree.operator.args
-        if isinstance(left, ex.Ref) and hasattr(ex, left.name):
+        if isinstance(left, ex.Ref) and _is_expression_constructor(left.name):
             def unwrap(x):
                 return eval(x.source_code) if isinstance(x, ex.PythonExpression) else x
             return getattr(ex, left.name)(
@@ -517,6 +518,15 @@ def _create_parsing_expression(tree):
 
     # Otherwise, fail if we don't know what to do with this tree.
     raise Exception(f'Unexpected expression: {tree!r}')
+
+
+def _is_expression_constructor(name):
+    # The "expressions" package also contains modules, constants and helper
+    # functions. Only its classes, and functions like "Left" and "Some", are
+    # constructors that a grammar can call.
+    obj = getattr(ex, name, None)
+    is_callable = isinstance(obj, type) or inspect.isfunction(obj)
+    return is_callable and name[:1].isupper()
 
 
 _program_setup = r'''
